@@ -31,7 +31,7 @@ RULE = ('seeded (curve, initial time grid with 1..6 slabs, initial space '
 W = {'bisect': 10, 'uniform': 0.3, 'uniform_space': 0.3, 'dorfler_iso': 0.3,
      'dorfler_aniso': 0.5, 'grading': 0.1}
 TIERS = {
-    'quick': {'runs': 2500, 'budget_s': 150, 'leaf_cap': 250, 'max_ops': 60,
+    'quick': {'runs': 8000, 'budget_s': 150, 'leaf_cap': 250, 'max_ops': 60,
               'weights': W, 'config_kinds': ['param'], 'p_time_grid': 0.7,
               'p_space_grid': 0.5, 'p_short': 0.7},
     'thorough': {'runs': 100000, 'budget_s': 1500, 'leaf_cap': 400,
